@@ -47,7 +47,7 @@ def handler_effects(ex, st):
     post = st.copy()
     for f in HANDLER_EFFECTS: post.havoc_field(f)
     S, T = View(st), View(post)
-    impose_queues_only_grow(S, T); impose_error_write_once(S, T)
+    impose_queues_only_grow(S, T); impose_error_write_once(S, T); impose_outputs_stay_defined(S, T); impose_steps_only_advance(S, T)
     return post
 
 
